@@ -12,23 +12,27 @@ var ErrInjected = errors.New("faultio: injected I/O failure")
 // accepts what still fits and returns (k, err); Short == false: the failing call accepts
 // nothing and returns (0, err). After the first failure every call fails.
 type Writer struct {
-	Budget   int
-	Short    bool
-	Full     bool // the failing call takes over all of its data and reports (len(p), err): a deferred failure
-	Accepted []byte
-	Failed   bool
+	Budget int
+	Short  bool
+	Full   bool // the failing call takes over all of its data and reports (len(p), err): a deferred failure
+	// Transient: only one call fails (short write with error); later calls are accepted again
+	Transient bool
+	Failures  int
+	Accepted  []byte
+	Failed    bool
 }
 
 func (w *Writer) Write(p []byte) (int, error) {
-	if w.Failed {
+	if w.Failed && !w.Transient {
 		return 0, ErrInjected
 	}
 	room := w.Budget - len(w.Accepted)
-	if len(p) <= room {
+	if len(p) <= room || (w.Transient && w.Failed) {
 		w.Accepted = append(w.Accepted, p...)
 		return len(p), nil
 	}
 	w.Failed = true
+	w.Failures++
 	if w.Full {
 		w.Accepted = append(w.Accepted, p...)
 		return len(p), ErrInjected
@@ -117,4 +121,15 @@ func (r *OneByteReader) Read(p []byte) (int, error) {
 	p[0] = r.Data[r.pos]
 	r.pos++
 	return 1, nil
+}
+
+// FailingSeeker is a plain reader that also has a Seek method which always fails, like the
+// read end of a pipe opened as a file.
+type FailingSeeker struct {
+	R io.Reader
+}
+
+func (f *FailingSeeker) Read(p []byte) (int, error) { return f.R.Read(p) }
+func (f *FailingSeeker) Seek(offset int64, whence int) (int64, error) {
+	return 0, errors.New("faultio: seek on a pipe")
 }
